@@ -56,6 +56,7 @@ def cases(tier, seed):
         yield {"fam": "big", "i": i}
     if tier == "thorough":
         yield {"fam": "huge", "i": 0}
+        yield {"fam": "big", "i": 100}
 
 
 def setup(ctx):
@@ -163,7 +164,16 @@ def run(case, ctx):
     if fam == "big":
         # more than 2^20 elements, sparse foreground, adjacent different labels and diagonal contacts
         r = gen.rng(ctx.seed, "big", i)
-        if i % 2 == 0:
+        if i == 100:  # 2^24 voxels in 3-D (sparse)
+            pred = np.zeros((256, 256, 256), dtype=np.uint8)
+            refa = np.zeros_like(pred)
+            for arr, lab in ((pred, 1), (refa, 2)):
+                for _ in range(5):
+                    z, y, x = (int(v) for v in r.integers(0, 250, size=3))
+                    arr[z, y, x] = lab
+                    arr[z + 1, y + 1, x + 1] = lab
+                    arr[z + 2, y + 1, x + 1] = 3 - lab
+        elif i % 2 == 0:
             pred = np.zeros(2**20 + 7, dtype=np.uint8)
             refa = np.zeros_like(pred)
             for arr in (pred, refa):
